@@ -158,7 +158,7 @@ static void triangulate_faces(Poly& m, Rng& g, double p_face) {
 static int flip_faces(Poly& m, Rng& g, double p) { int n = 0; for (auto& f : m.F) if (g.coin(p)) { std::reverse(f.v.begin(), f.v.end()); n++; } return n; }
 static bool is_polygonal(const Poly& m) { for (auto& f : m.F) if (f.v.size() > 3) return true; return false; }
 
-static const char* FAMILIES[] = {"cube", "box", "prism", "sphere", "ellipsoid", "lprism", "starprism"};
+static const char* FAMILIES[] = {"cube", "box", "prism", "sphere", "ellipsoid", "lprism", "starprism", "dumbbell"};
 static Poly make_family(int fam, Rng& g) {
     Poly m;
     switch (fam) {
@@ -169,6 +169,23 @@ static Poly make_family(int fam, Rng& g) {
         case 4: { if (g.coin(0.5)) m = uv_poly(g.range(6, 12), g.range(4, 8)); else m = from_trimesh(gen::icosphere(g.range(1, 2))); double b = g.uni(0.45, 1), c = g.uni(0.45, 1); pscale(m, 1, b, c); m.thick = 2 * std::min(b, c); break; }
         case 5: { double a = g.uni(1.2, 2), d = g.uni(1.2, 2), c = a * g.uni(0.55, 0.9), b = d * g.uni(0.55, 0.9); Poly2 pg = {{0, 0}, {a, 0}, {a, b}, {c, b}, {c, d}, {0, d}};
             for (auto& p : pg) { p[0] -= a / 2; p[1] -= d / 2; } m = prism_poly(pg, g.uni(0.4, 1.0), 1, false); m.thick = std::min({m.thick, c, b}); break; }
+        case 7: {   // dumbbell: 2-3 unit cubes in a row joined by square necks 0.04 wide and 0.5 long (closed, genus 0, every face a quad).  For every
+            // l_min above ~0.05 the necks are thinner than the sampling distance: the reconstruction must then fail cleanly or still reproduce
+            // all lobes; a front that swept one lobe only and was closed by the hole filling is neither
+            const int nl = g.range(2, 3); const double w = 0.02, gap = 0.5; auto add = [&](double x, double y, double z) { m.P.push_back({x, y, z}); return (unsigned)m.P.size() - 1; };
+            auto quad = [&](unsigned a, unsigned b, unsigned c, unsigned d) { PFace f; f.v = {a, b, c, d}; m.F.push_back(f); };
+            std::vector<std::array<unsigned, 4>> holeL(nl), holeR(nl);
+            for (int k = 0; k < nl; k++) { const double x0 = k * (1 + gap), x1 = x0 + 1;
+                unsigned c[2][2][2]; for (int i = 0; i < 2; i++) for (int j = 0; j < 2; j++) for (int l = 0; l < 2; l++) c[i][j][l] = add(i ? x1 : x0, j, l);
+                quad(c[0][0][0], c[1][0][0], c[1][0][1], c[0][0][1]); quad(c[0][1][0], c[0][1][1], c[1][1][1], c[1][1][0]);   // y = 0, y = 1
+                quad(c[0][0][0], c[0][1][0], c[1][1][0], c[1][0][0]); quad(c[0][0][1], c[1][0][1], c[1][1][1], c[0][1][1]);   // z = 0, z = 1
+                for (int side = 0; side < 2; side++) { const bool has = side == 0 ? k > 0 : k + 1 < nl; const double x = side ? x1 : x0; unsigned o[4] = {c[side][0][0], c[side][1][0], c[side][1][1], c[side][0][1]};   // (y,z): 00 10 11 01
+                    if (!has) { if (side) quad(o[0], o[1], o[2], o[3]); else quad(o[0], o[3], o[2], o[1]); continue; }
+                    unsigned h[4] = {add(x, 0.5 - w, 0.5 - w), add(x, 0.5 + w, 0.5 - w), add(x, 0.5 + w, 0.5 + w), add(x, 0.5 - w, 0.5 + w)};
+                    for (int e = 0; e < 4; e++) { int e1 = (e + 1) % 4; if (side) quad(o[e], o[e1], h[e1], h[e]); else quad(o[e1], o[e], h[e], h[e1]); }
+                    for (int e = 0; e < 4; e++) (side ? holeR[k][e] : holeL[k][e]) = h[e]; } }
+            for (int k = 0; k + 1 < nl; k++) for (int e = 0; e < 4; e++) { int e1 = (e + 1) % 4; quad(holeR[k][e], holeR[k][e1], holeL[k + 1][e1], holeL[k + 1][e]); }
+            ptranslate(m, -0.5 * (nl * (1 + gap) - gap), -0.5, -0.5); m.thick = 1; break; }
         default: { int k = g.range(4, 7); double rin = g.uni(0.5, 0.8); Poly m2;
             for (int attempt = 0; attempt < 4; attempt++) { Poly2 pg; double jit = attempt < 3 ? 0.08 : 0.0; for (int j = 0; j < 2 * k; j++) { double r = (j % 2 == 0 ? 1.0 : rin) * (1 + jit * g.uni(-1, 1)); pg.push_back({r * std::cos(M_PI * j / k), r * std::sin(M_PI * j / k)}); }
                 m2 = prism_poly(pg, g.uni(0.4, 1.0), 1, false); if (faces_star_shaped(m2)) break; }
@@ -260,7 +277,7 @@ static std::string run_case(const Args& a, long i, const std::string& path) {
     for (int k = 0; k < ncell; k++) {
         Poly m;
         if (bad) m = make_bad(bad_kind, g);
-        else { int fam = a.kv.count("family") ? (int)a.geti("family", 0) : g.range(0, 6); m = make_family(fam, g); }
+        else { int fam = a.kv.count("family") ? (int)a.geti("family", 0) : g.range(0, 7); m = make_family(fam, g); }
         if (!bad) {
             // face style: polygonal as generated / all triangulated / mixed
             int style = mode == OFF_VALID ? 1 : mode == OFF_POLY ? (g.coin(0.5) ? 0 : 2) : g.range(0, 2);
